@@ -73,6 +73,15 @@ def main(tier, replay):
                     extras = [{"at": rng.randrange(0, i + 1), "what": rng.choice(["reader", "writer", "gc", "split", "push_min_commit"]), "k": ""}]
                 cases.append(txnlab.mk_scenario(f"{sh['name']}-{mode}-{'p' if pess else 'o'}-{i}-{kind[6:7]}{'x' if extras else ''}{'-fb' if fb else ''}", sh, mode, pess,
                                                 faults=[{"at": i, "kind": kind}], extras=extras, **txnlab.fbkw(fb)))
+    # crash "never" with another client acting at every index: a reader pushing the primary's min-commit ts under a commit that
+    # is already on its way (the commit ts is then replaced, every key must still get ONE commit ts), a resolver, a split
+    for (sh, mode, pess, fb), pr in zip(base, pres):
+        if len(sh["keys"]) < 2:
+            continue
+        for i in range(min(pr.get("counted", 0), 14)):
+            hk = ["push_min_commit", "reader", "split"][i % 3] if rng.random() < 0.5 else "push_min_commit"
+            cases.append(txnlab.mk_scenario(f"{sh['name']}-{mode}-{'p' if pess else 'o'}-{i}-h{hk[:2]}{'-fb' if fb else ''}", sh, mode, pess,
+                                            extras=[{"at": i, "what": hk, "k": ""}], **txnlab.fbkw(fb)))
     if tier == "quick" and len(cases) > 1800:
         rng.shuffle(cases)
         cases = cases[:1800]
